@@ -149,7 +149,12 @@ pub enum Scen {
     WriteGuardVsGetAndPoll,
     /// the last clone is dropped while two other threads upgrade the same weak reference
     DropVsTwoUpgrades,
+    /// a writer that never notifies (write guard only read, update_if -> false, set_if_not_eq(equal)) ||
+    /// subscribe + first poll + get on another thread
+    SubscribeVsQuietWriter,
 }
+
+pub const C01_SCENS: &[Scen] = &[Scen::SubscribeVsQuietWriter];
 
 pub const C04_GUARD_SCENS: &[Scen] = &[Scen::ReadGuardVsSet, Scen::WriteGuardVsGetAndPoll];
 
@@ -408,6 +413,53 @@ fn run_scen(sc: Scen, prefix: &[usize]) -> (SchedRun, V) {
             drop(ob);
             (run, verdict)
         }
+        Scen::SubscribeVsQuietWriter => {
+            let ob = SharedObservable::new(0u64);
+            let (c1, c2) = (ob.clone(), ob.clone());
+            let got: Slot<(bool, Option<Option<u64>>, u64, u64)> = slot();
+            let g2 = got.clone();
+            let run = run_schedule(
+                vec![
+                    Box::new(move || {
+                        let g = c1.write();
+                        let seen = *g;
+                        pause("wguard:held");
+                        drop(g);
+                        c1.update_if(|_| false);
+                        let r = c1.set_if_not_eq(seen);
+                        assert!(r.is_none());
+                    }),
+                    Box::new(move || {
+                        let mut s = c2.subscribe();
+                        let (r, _flag) = poll_stream_once(&mut s);
+                        let v = s.get();
+                        let now = s.next_now();
+                        let out = match r {
+                            Poll::Pending => (true, None, v, now),
+                            Poll::Ready(x) => (false, Some(x), v, now),
+                        };
+                        *g2.lock().unwrap() = Some(out);
+                    }),
+                ],
+                prefix,
+                t_block(),
+            );
+            let Some((pending, ready, v, now)) = got.lock().unwrap().take() else {
+                return (run, Ok(()));
+            };
+            let verdict = if !pending {
+                bad(
+                    "C01|C04",
+                    format!("a subscriber created by subscribe() while another thread only took non-notifying write accesses answered Ready({:?}) on its first poll: no notifying update ever happened and it was not reset", ready.unwrap()),
+                )
+            } else if v != 0 || now != 0 {
+                bad("C01|C04", format!("get / next_now returned {v} / {now}, the value was 0 throughout"))
+            } else {
+                Ok(())
+            };
+            drop(ob);
+            (run, verdict)
+        }
         Scen::PollVsSubscriberDropThenSet => {
             let ob = SharedObservable::new(0u64);
             let sub = slot_with(ob.subscribe());
@@ -609,7 +661,7 @@ pub fn run_directed(prop: &str, scens: &[Scen], p: &Params, max_schedules: usize
             out.inconclusive.push(format!("scenario {sc:?}: {} schedule(s) got stuck (roles neither parked nor finished)", ex.stuck));
         }
         if let Some((vp, what, trace, prefix)) = ex.violation {
-            if vp == prop {
+            if vp.split('|').any(|t| t == prop) {
                 out.violations.push(Violation {
                     property: prop.to_string(),
                     case: json!({"gen": gen_name, "case": i, "prefix": prefix}),
@@ -1994,6 +2046,18 @@ fn want(p: &Params, part: &str) -> bool {
     p.part == "all" || p.part == part
 }
 
+pub fn run_c01(p: &Params) -> Outcome {
+    let mut out = Outcome::default();
+    if want(p, "seq") {
+        out.merge(crate::runners_obs::run_c01(p));
+    }
+    if want(p, "threads") {
+        // subscribe() racing with write accesses that do not notify
+        out.merge(run_directed("C01", C01_SCENS, p, sched_budget(p, 200, 1500)));
+    }
+    out
+}
+
 pub fn run_c02(p: &Params) -> Outcome {
     let mut out = Outcome::default();
     if want(p, "seq") {
@@ -2024,7 +2088,7 @@ pub fn run_c03(p: &Params) -> Outcome {
 pub fn run_c04(p: &Params) -> Outcome {
     let mut out = Outcome::default();
     // the lock-exclusion invariant is evaluated by the director in every scenario
-    let all: Vec<Scen> = C04_GUARD_SCENS.iter().chain(C02_SCENS.iter()).chain(C03_SCENS[..6].iter()).copied().collect();
+    let all: Vec<Scen> = C04_GUARD_SCENS.iter().chain(C01_SCENS.iter()).chain(C02_SCENS.iter()).chain(C03_SCENS[..6].iter()).copied().collect();
     out.merge(run_directed("C04", &all, p, sched_budget(p, 200, 1500)));
     out.merge(run_rounds("C04", p, "w1-register", p.n(1_500, 60_000), round_w1));
     out.merge(run_rounds("C04", p, "w2-append-list", p.n(800, 30_000), round_w2));
